@@ -117,6 +117,13 @@ def conformance(cfg):
                           f"driven along {hist}, observes something else than the model predicts ({got[0]})", case=case))
             continue
         a = abstract(obj)
+        if "recovery" not in vars(obj):
+            # an implementation that does not keep the curve as an attribute has no cache component to map: the
+            # observation part above already tied every read to the model; only the `sim` component is compared
+            if a[0] != sim_t:
+                viol.append(V("model-conformance/refinement-mapping", f"after {hist} the stored run abstracts to {a[0]}, the "
+                              f"model is in {nodes[t]}", case=case))
+            continue
         if a != (sim_t, cache_t):
             viol.append(V("model-conformance/refinement-mapping", f"after {hist} the implementation's state abstracts to {a}, "
                           f"the model is in {nodes[t]}", case=case))
